@@ -3,7 +3,9 @@ package main
 import (
 	"context"
 	"fmt"
+	"math/rand/v2"
 	"slices"
+	"strings"
 	"sync/atomic"
 	"time"
 
@@ -159,6 +161,7 @@ func runHelpers(res *core.CaseResult, c core.CaseDesc) {
 	}
 	runWaits(res, check)
 	runAsync(res, check)
+	runAskBusy(res, r, check)
 	// disposed machine: the blocking helpers must still return
 	md, _ := helperMach()
 	md.Dispose()
@@ -173,6 +176,111 @@ func runHelpers(res *core.CaseResult, c core.CaseDesc) {
 	guarded(res, "AskAdd1/disposed", func() { amhelp.AskAdd1(md, "A", nil) })
 	guarded(res, "AddSync/disposed", func() { amhelp.AddSync(ctx, md, am.S{"A"}) })
 	res.Evals += 4
+}
+
+// runAskBusy: the Cant* / Ask* helpers and the raw CanAdd + ACheck protocol
+// asked while a handler holds the queue: the answer then arrives through
+// CheckDone / ACheck.Canceled instead of the synchronous result, and has to
+// be the same one. V's Enter handler and X's Exit handler veto.
+func runAskBusy(res *core.CaseResult, r *rand.Rand, check func(string, bool, string, ...any)) {
+	states := []string{"A", "B", "V", "X"}
+	for trial := 0; trial < 6; trial++ {
+		tr := rec.NewTracer("rec")
+		m := am.New(context.Background(), am.Schema{"A": {}, "B": {Multi: true}, "V": {}, "X": {}, "H": {}},
+			&am.Opts{Id: "c20b", DontLogId: true, DontLogStackTrace: true, Tracers: []am.Tracer{tr}, HandlerTimeout: 30 * time.Second})
+		entered := make(chan struct{})
+		gate := make(chan struct{})
+		_, _ = m.HandlersBindMaps(map[string]am.HandlerNegotiation{
+			"VEnter": func(e *am.Event) bool { return false },
+			"XExit":  func(e *am.Event) bool { return false },
+		}, map[string]am.HandlerFinal{
+			"HState": func(e *am.Event) {
+				close(entered)
+				select {
+				case <-gate:
+				case <-time.After(20 * time.Second):
+				}
+			},
+		})
+		m.Add1("X", nil)
+		sub := am.S(gen.RandSubset(r, states, false))
+		go m.Add1("H", nil)
+		select {
+		case <-entered:
+		case <-time.After(10 * time.Second):
+			res.Inconclusive = "the holding handler was not entered"
+			close(gate)
+			m.Dispose()
+			return
+		}
+		kind := []string{"CantAdd", "CantRemove", "CanAdd+ACheck", "CanRemove+ACheck"}[r.IntN(4)]
+		var cant bool
+		var syncRes am.Result
+		done := make(chan struct{})
+		go func() {
+			defer close(done)
+			switch kind {
+			case "CantAdd":
+				cant = amhelp.CantAdd(m, sub, nil)
+			case "CantRemove":
+				cant = amhelp.CantRemove(m, sub, nil)
+			default:
+				ac := &am.ACheck{CheckDone: make(chan struct{})}
+				if kind == "CanAdd+ACheck" {
+					syncRes = m.CanAdd(sub, am.Pass(ac))
+				} else {
+					syncRes = m.CanRemove(sub, am.Pass(ac))
+				}
+				if syncRes == am.Canceled {
+					cant = true
+					return
+				}
+				<-ac.CheckDone
+				cant = ac.Canceled
+			}
+		}()
+		// the question has to be waiting behind the held handler before the gate opens
+		queued := false
+		for i := 0; i < 2000; i++ {
+			if m.QueueLen() > 0 {
+				queued = true
+				break
+			}
+			select {
+			case <-done:
+				i = 2000
+			case <-time.After(time.Millisecond):
+			}
+		}
+		close(gate)
+		select {
+		case <-done:
+		case <-time.After(15 * time.Second):
+			res.Violate("C20/blocked/"+kind+"/busy-queue", kind+" asked while a handler held the queue did not return within 15s after the handler was released", nil)
+			m.Dispose()
+			return
+		}
+		if queued {
+			res.Count("questions_answered_through_CheckDone", 1)
+		}
+		add := strings.Contains(kind, "Add")
+		// what the same mutation does now (nothing else ran in between)
+		var rs am.Result
+		if add {
+			rs = m.Add(sub, am.A{"uid": rec.NextUid()})
+		} else {
+			rs = m.Remove(sub, am.A{"uid": rec.NextUid()})
+		}
+		name := kind + "/busy-queue"
+		check(name, !cant || rs == am.Canceled, "%s(%v) asked behind a held queue answered impossible, the same mutation then returned %s", kind, sub, rec.ResStr(rs))
+		if add && slices.Contains(sub, "V") {
+			check(name+"/veto", cant, "%s(%v) asked behind a held queue answered possible although VEnter vetoes (the mutation itself returned %s)", kind, sub, rec.ResStr(rs))
+		}
+		if !add && slices.Contains(sub, "X") {
+			check(name+"/veto", cant, "%s(%v) asked behind a held queue answered possible although XExit vetoes (the mutation itself returned %s)", kind, sub, rec.ResStr(rs))
+		}
+		m.Dispose()
+	}
 }
 
 // runCopy: values the getters document as copies are the caller's to modify.
